@@ -79,7 +79,7 @@ def descend (v : String) : List Operand → List (Nat × ATree) → List Operand
   | o :: os, ch =>
     if o.ranks.head? == some v then
       match ch with
-      | c :: cs => { ranks := o.ranks.tail, t := c.2 } :: descend v os cs
+      | c :: cs => { o with ranks := o.ranks.tail, t := c.2 } :: descend v os cs
       | [] => o :: descend v os []
     else o :: descend v os ch
 
